@@ -50,9 +50,9 @@ func c14(r *Report) {
 	r.Gate(Gate{ID: "C14.finish.receiver-ok", Fn: nn, Effect: fin, Check: ErrCheck(DynField("receiver"))})
 	r.Gate(Gate{ID: "C14.finish.receiver-finished", Fn: nn, Effect: fin, Check: CallCheck(DynField("receiver"), 0, IsTrue)})
 	r.Own(OwnSpec{ID: "C14.own.finished", Op: "call Notifier.Finished", Sites: p.CallSites(p.FnOrImpl(dag, "Notifier", "Finished"), true), Min: 2, Owners: map[string]string{
-		"(*network/dag.notifier).notifyNow":                          "receiver reported completion",
+		"(*network/dag.notifier).notifyNow":                         "receiver reported completion",
 		"(*network/transport/v2.protocol).handleTransactionPayload": "payload written (the job was to fetch it)",
-		"(*network.Network).CleanupSubscriberEvents":                  "operator API",
+		"(*network.Network).CleanupSubscriberEvents":                "operator API",
 	}})
 	c14JobDeleteOwner(r)
 	c14UnfinishedPersisted(r, nn)
